@@ -76,6 +76,9 @@ pub fn strategy() -> BoxedStrategy<Input> {
     let p = profile();
     (cgen::case(&p), prop::collection::vec(any::<u16>(), 8), 0u8..10)
         .prop_map(|(mut case, sel, nodrain)| {
+            // (a disconnect without a drain carries unacknowledged requests into the next
+            // connection: the limit below then holds for the whole program, not per connection)
+            let mut heavy_total = 0;
             for cs in case.conns.iter_mut() {
                 // time may pass between operations, but never 5 s with inbound data left unread:
                 // otherwise a run whose cancelled poll read less than its twin's would (correctly)
@@ -93,7 +96,7 @@ pub fn strategy() -> BoxedStrategy<Input> {
                 cs.steps = timed;
                 // keep well below the local in-flight limits so that acceptance never depends on
                 // when an acknowledgement happens to be consumed
-                let mut heavy = 0;
+                let mut heavy = if nodrain < 4 { heavy_total } else { 0 };
                 cs.steps.retain(|s| {
                     let h = matches!(s, Step::Publish(p) if p.qos > 0) || matches!(s, Step::Subscribe { .. } | Step::Unsubscribe { .. });
                     if h {
@@ -101,6 +104,7 @@ pub fn strategy() -> BoxedStrategy<Input> {
                     }
                     !h || heavy <= 5
                 });
+                heavy_total = heavy.min(5);
                 // a disconnect in the middle makes the rest of the connection trivial: keep it last
                 if let Some(i) = cs.steps.iter().position(|s| matches!(s, Step::Disconnect { .. })) {
                     let d = cs.steps.remove(i);
